@@ -22,9 +22,10 @@ type formulaSite struct {
 	pos        token.Pos
 	named, abs string
 	text       string
-	res        string // named form with single-definition locals substituted (an extracted or inlined local is immaterial)
-	ra         string // the type-named form with locals substituted (renamed AND moved)
-	via        string // the unexported helper the site was read in, at one of its call sites
+	res        string   // named form with single-definition locals substituted (an extracted or inlined local is immaterial)
+	ra         string   // the type-named form with locals substituted (renamed AND moved)
+	via        string   // the unexported helper the site was read in, at one of its call sites
+	assume     []string // for boolean sites: conditions known to hold where the site stands (resolved NNF), see assumptionsAt
 }
 
 func hasArith(e ast.Expr) bool {
@@ -72,10 +73,31 @@ func hasBoolOp(e ast.Expr) bool {
 	return found
 }
 
-// boolForm: canonical text of a boolean expression: and(...)/or(...) with sorted operands, not(...), comparisons as
-// oriented polynomials, everything else as (possibly type-named) atoms.
+// boolForm: canonical text of a boolean expression, in negation normal form: negations are pushed inwards (De Morgan;
+// a negated comparison is the opposite comparison), and(...)/or(...) are flattened and their operands sorted,
+// comparisons are oriented polynomials, everything else is a (possibly type-named) atom or not(atom).
 func boolForm(info *types.Info, e ast.Expr, defs map[types.Object]localDef) string {
+	return boolNNF(info, e, defs, false, 0)
+}
+
+func boolNNF(info *types.Info, e ast.Expr, defs map[types.Object]localDef, neg bool, depth int) string {
 	e = ast.Unparen(e)
+	if depth > 24 {
+		return "?"
+	}
+	join := func(name string, parts []string) string {
+		// flatten nested same-name groups
+		var flat []string
+		for _, p := range parts {
+			if strings.HasPrefix(p, name+"(") && strings.HasSuffix(p, ")") && balancedTop(p[len(name)+1:len(p)-1]) {
+				flat = append(flat, splitTop(p[len(name)+1:len(p)-1])...)
+			} else {
+				flat = append(flat, p)
+			}
+		}
+		sort.Strings(flat)
+		return name + "(" + strings.Join(flat, "; ") + ")"
+	}
 	switch x := e.(type) {
 	case *ast.BinaryExpr:
 		switch x.Op {
@@ -83,48 +105,269 @@ func boolForm(info *types.Info, e ast.Expr, defs map[types.Object]localDef) stri
 			parts := flattenBool(x, x.Op)
 			var fs []string
 			for _, p := range parts {
-				fs = append(fs, boolForm(info, p, defs))
+				fs = append(fs, boolNNF(info, p, defs, neg, depth+1))
 			}
-			sort.Strings(fs)
 			name := "and"
-			if x.Op == token.LOR {
+			if (x.Op == token.LOR) != neg {
 				name = "or"
 			}
-			return name + "(" + strings.Join(fs, "; ") + ")"
+			return join(name, fs)
 		case token.EQL, token.NEQ, token.LSS, token.LEQ, token.GTR, token.GEQ:
+			op := x.Op
+			if neg {
+				op = negOp[op]
+			}
+			// comparisons with a boolean literal are the operand itself
+			for _, pr := range [][2]ast.Expr{{x.X, x.Y}, {x.Y, x.X}} {
+				if id, ok := ast.Unparen(pr[1]).(*ast.Ident); ok && (id.Name == "true" || id.Name == "false") && (x.Op == token.EQL || x.Op == token.NEQ) {
+					n2 := neg
+					if (id.Name == "false") != (x.Op == token.NEQ) {
+						n2 = !n2
+					}
+					return boolNNF(info, pr[0], defs, n2, depth+1)
+				}
+			}
 			l, ok1 := exprPoly(info, x.X, defs, nil, 0)
 			r, ok2 := exprPoly(info, x.Y, defs, nil, 0)
 			if ok1 && ok2 {
-				return "[" + canonCmp(polyAdd(l, r, -1), x.Op) + "]"
+				return "[" + canonCmp(polyAdd(l, r, -1), op) + "]"
 			}
-			a, b := strings.ReplaceAll(types.ExprString(x.X), " ", ""), strings.ReplaceAll(types.ExprString(x.Y), " ", "")
+			a, b := strings.ReplaceAll(exprText(info, x.X), " ", ""), strings.ReplaceAll(exprText(info, x.Y), " ", "")
 			if polyAbstract {
 				a, b = absName(info, x.X), absName(info, x.Y)
 			}
-			if (x.Op == token.EQL || x.Op == token.NEQ) && b < a {
-				a, b = b, a
+			switch op {
+			case token.EQL, token.NEQ:
+				if b < a {
+					a, b = b, a
+				}
+			case token.GTR:
+				a, b, op = b, a, token.LSS
+			case token.GEQ:
+				a, b, op = b, a, token.LEQ
 			}
-			return "[" + a + x.Op.String() + b + "]"
+			return "[" + a + op.String() + b + "]"
 		}
 	case *ast.UnaryExpr:
 		if x.Op == token.NOT {
-			return "not(" + boolForm(info, x.X, defs) + ")"
+			return boolNNF(info, x.X, defs, !neg, depth+1)
 		}
 	}
 	if id, ok := e.(*ast.Ident); ok && defs != nil {
-		if d, ok := defs[info.Uses[id]]; ok && d.pos == 0 && d.n == 1 && d.rhs != nil {
+		d, has := defs[info.Uses[id]]
+		if !has && polyReach != nil {
+			d, has = polyReach.at(info.Uses[id], id)
+		}
+		if has && d.pos == 0 && d.n == 1 && d.rhs != nil {
 			if b, ok := info.TypeOf(d.rhs).Underlying().(*types.Basic); ok && b.Kind() == types.Bool {
-				return boolForm(info, d.rhs, defs)
+				return boolNNF(info, d.rhs, defs, neg, depth+1)
 			}
 		}
 	}
+	if id, ok := e.(*ast.Ident); ok {
+		if a, ok := polyArgs[info.Uses[id]]; ok {
+			return boolNNF(info, a, defs, neg, depth+1)
+		}
+		switch id.Name {
+		case "true":
+			if neg {
+				return "false"
+			}
+			return "true"
+		case "false":
+			if neg {
+				return "true"
+			}
+			return "false"
+		}
+	}
+	atom := ""
 	if p, ok := exprPoly(info, e, defs, nil, 0); ok {
-		return p.String()
+		atom = p.String()
+	} else if polyAbstract {
+		atom = absName(info, e)
+	} else {
+		atom = strings.ReplaceAll(exprText(info, e), " ", "")
 	}
-	if polyAbstract {
-		return absName(info, e)
+	if neg {
+		return "not(" + atom + ")"
 	}
-	return strings.ReplaceAll(types.ExprString(e), " ", "")
+	return atom
+}
+
+// splitTop splits "a; b; and(c; d)" at the top-level separators; balancedTop says the text is one balanced group list.
+func splitTop(s string) []string {
+	var out []string
+	depth, start := 0, 0
+	for i := 0; i < len(s); i++ {
+		switch s[i] {
+		case '(', '[':
+			depth++
+		case ')', ']':
+			depth--
+		case ';':
+			if depth == 0 && i+1 < len(s) && s[i+1] == ' ' {
+				out = append(out, s[start:i])
+				start = i + 2
+			}
+		}
+	}
+	return append(out, s[start:])
+}
+
+func balancedTop(s string) bool {
+	depth := 0
+	for i := 0; i < len(s); i++ {
+		switch s[i] {
+		case '(', '[':
+			depth++
+		case ')', ']':
+			depth--
+			if depth < 0 {
+				return false
+			}
+		}
+	}
+	return depth == 0
+}
+
+// boolOfBody: the boolean a function body computes when it is written as guards and a final return:
+//
+//	if C { return X }; rest   =  (C and X) or (not C and rest)   — with X a literal: `C or rest` / `not C and rest`
+//	if C { return X } else { return Y }  likewise;  return E  =  E
+//
+// Returns the canonical NNF text, or "" when the body has another shape.
+func boolOfBody(info *types.Info, stmts []ast.Stmt, defs map[types.Object]localDef, neg bool, depth int) string {
+	if depth > 12 || len(stmts) == 0 {
+		return ""
+	}
+	// leading plain definitions are looked through by defs
+	i := 0
+	for i < len(stmts) {
+		switch st := stmts[i].(type) {
+		case *ast.AssignStmt:
+			if st.Tok == token.DEFINE {
+				i++
+				continue
+			}
+		case *ast.DeclStmt:
+			i++
+			continue
+		}
+		break
+	}
+	stmts = stmts[i:]
+	// `if err != nil { panic(err) }` decides nothing
+	for len(stmts) > 0 {
+		is, ok := stmts[0].(*ast.IfStmt)
+		if !ok || is.Else != nil || len(is.Body.List) != 1 {
+			break
+		}
+		es, ok := is.Body.List[0].(*ast.ExprStmt)
+		if !ok {
+			break
+		}
+		cl, ok := es.X.(*ast.CallExpr)
+		if !ok {
+			break
+		}
+		if id, ok := cl.Fun.(*ast.Ident); !ok || id.Name != "panic" {
+			break
+		}
+		stmts = stmts[1:]
+		// and the definitions that follow it
+		for len(stmts) > 0 {
+			if as, ok := stmts[0].(*ast.AssignStmt); ok && as.Tok == token.DEFINE {
+				stmts = stmts[1:]
+				continue
+			}
+			break
+		}
+	}
+	if len(stmts) == 0 {
+		return ""
+	}
+	single := func(b ast.Stmt) ast.Expr {
+		blk, ok := b.(*ast.BlockStmt)
+		if !ok || len(blk.List) != 1 {
+			return nil
+		}
+		r, ok := blk.List[0].(*ast.ReturnStmt)
+		if !ok || len(r.Results) != 1 {
+			return nil
+		}
+		return r.Results[0]
+	}
+	combine := func(name string, a, b string) string {
+		if a == "" || b == "" {
+			return ""
+		}
+		parts := []string{}
+		for _, p := range []string{a, b} {
+			if strings.HasPrefix(p, name+"(") && strings.HasSuffix(p, ")") && balancedTop(p[len(name)+1:len(p)-1]) {
+				parts = append(parts, splitTop(p[len(name)+1:len(p)-1])...)
+			} else {
+				parts = append(parts, p)
+			}
+		}
+		sort.Strings(parts)
+		return name + "(" + strings.Join(parts, "; ") + ")"
+	}
+	andN, orN := "and", "or"
+	if neg {
+		andN, orN = "or", "and"
+	}
+	switch st := stmts[0].(type) {
+	case *ast.ReturnStmt:
+		if len(st.Results) != 1 {
+			return ""
+		}
+		return boolNNF(info, st.Results[0], defs, neg, 0)
+	case *ast.IfStmt:
+		if st.Init != nil {
+			return ""
+		}
+		x := single(st.Body)
+		if x == nil {
+			return ""
+		}
+		var rest string
+		if st.Else != nil {
+			if y := single(st.Else); y != nil {
+				rest = boolNNF(info, y, defs, neg, 0)
+			} else if ei, ok := st.Else.(*ast.IfStmt); ok {
+				rest = boolOfBody(info, []ast.Stmt{ei}, defs, neg, depth+1)
+			}
+		} else {
+			rest = boolOfBody(info, stmts[1:], defs, neg, depth+1)
+		}
+		if rest == "" {
+			return ""
+		}
+		c := boolNNF(info, st.Cond, defs, false, 0)
+		nc := boolNNF(info, st.Cond, defs, true, 0)
+		if neg {
+			c, nc = nc, c
+		}
+		if id, ok := ast.Unparen(x).(*ast.Ident); ok && (id.Name == "false" || id.Name == "true") {
+			if (id.Name == "true") != neg {
+				// C -> true: value = C or rest           (negated: not C and not rest, names already swapped)
+				if neg {
+					return combine(andN, boolNNF(info, st.Cond, defs, true, 0), rest)
+				}
+				return combine(orN, boolNNF(info, st.Cond, defs, false, 0), rest)
+			}
+			// C -> false: value = not C and rest
+			if neg {
+				return combine(orN, boolNNF(info, st.Cond, defs, false, 0), rest)
+			}
+			return combine(andN, boolNNF(info, st.Cond, defs, true, 0), rest)
+		}
+		_ = c
+		_ = nc
+		return ""
+	}
+	return ""
 }
 
 var formulaDecls = map[string]cmpDecl{}
@@ -199,6 +442,8 @@ func formulasIn(pk *packages.Package, fd *ast.FuncDecl, fn string, subst map[typ
 			fdefs[o] = d
 		}
 	}
+	fparents := parentMap(fd.Body)
+	var curStmt ast.Node
 	// accumulate: x = x + v, x += v, x -= v, x++ are all "+= <poly>" (the target leaves the polynomial)
 	accum := func(tok token.Token, lhs ast.Expr, p Poly, defs map[types.Object]localDef, abstract bool) (token.Token, Poly) {
 		switch tok {
@@ -246,7 +491,7 @@ func formulasIn(pk *packages.Package, fd *ast.FuncDecl, fn string, subst map[typ
 				polyAbstract = false
 				res := boolForm(info, rhs, fdefs)
 				t := tok.String() + " "
-				out = append(out, formulaSite{fn, target, tok, pos, t + named, t + abs, types.ExprString(rhs), t + res, t + ra, ""})
+				out = append(out, formulaSite{fn, target, tok, pos, t + named, t + abs, types.ExprString(rhs), t + res, t + ra, "", assumptionsAt(info, fparents, curStmt, fdefs)})
 				return
 			}
 		}
@@ -293,13 +538,103 @@ func formulasIn(pk *packages.Package, fd *ast.FuncDecl, fn string, subst map[typ
 		} else {
 			t4, ra = accum(tok, lhs, ra, fdefs, true)
 		}
-		out = append(out, formulaSite{fn, target, t1, pos, t1.String() + " " + named.String(), t3.String() + " " + abs.String(), types.ExprString(rhs), t2.String() + " " + res.String(), t4.String() + " " + ra.String(), ""})
+		out = append(out, formulaSite{fn, target, t1, pos, t1.String() + " " + named.String(), t3.String() + " " + abs.String(), types.ExprString(rhs), t2.String() + " " + res.String(), t4.String() + " " + ra.String(), "", nil})
+	}
+	// a predicate written as guards (`if !a { return false }; …; return c`) computes a && … && c: read as one formula
+	wholeBool := false
+	if fd.Type.Results != nil && len(fd.Type.Results.List) == 1 && len(fd.Type.Results.List[0].Names) <= 1 {
+		if b, ok := info.TypeOf(fd.Type.Results.List[0].Type).Underlying().(*types.Basic); ok && b.Kind() == types.Bool {
+			guards := false
+			for _, st := range fd.Body.List {
+				if _, ok := st.(*ast.IfStmt); ok {
+					guards = true
+				}
+			}
+			if guards {
+				named := boolOfBody(info, fd.Body.List, fdefs, false, 0)
+				polyAbstract = true
+				polyAbsSeen = nil
+				abs := boolOfBody(info, fd.Body.List, fdefs, false, 0)
+				polyAbstract = false
+				if named != "" && abs != "" && (strings.HasPrefix(named, "and(") || strings.HasPrefix(named, "or(")) {
+					wholeBool = true
+					out = append(out, formulaSite{fn, "return#0", token.ASSIGN, fd.Body.Pos(), "= " + named, "= " + abs, "guards and final return", "= " + named, "= " + abs, "", nil})
+				}
+			}
+		}
+	}
+	_ = fparents
+	liftHelper := func(e ast.Expr, target string, lhs ast.Expr, pos token.Pos) {
+		hc, ok := ast.Unparen(e).(*ast.CallExpr)
+		if !ok || isConversion(info, hc) || len(polyInlining) >= 3 {
+			return
+		}
+		hf := calleeFunc(info, hc)
+		if hf == nil || hf.Exported() || hf.Pkg() != pk.Types {
+			return
+		}
+		hd, ok := formulaDecls[pkgShort(pk.Types)+"."+hf.Name()]
+		if !ok || hd.fd == fd || hd.fd.Body == nil || hd.fd.Recv != nil {
+			return
+		}
+		if _, single := polyInline[hf]; single {
+			return // read in place by exprPoly
+		}
+		saved := polyArgs
+		merged := map[types.Object]ast.Expr{}
+		for k, v := range saved {
+			merged[k] = v
+		}
+		for k, v := range helperSubst(hd, hc) {
+			merged[k] = v
+		}
+		polyArgs = merged
+		ast.Inspect(hd.fd.Body, func(m ast.Node) bool {
+			if _, isLit := m.(*ast.FuncLit); isLit {
+				return false
+			}
+			if r, ok := m.(*ast.ReturnStmt); ok && len(r.Results) == 1 && hasArith(r.Results[0]) {
+				add(target, token.ASSIGN, lhs, r.Results[0], pos)
+			}
+			return true
+		})
+		polyArgs = saved
 	}
 	ast.Inspect(fd.Body, func(n ast.Node) bool {
 		switch x := n.(type) {
 		case *ast.AssignStmt:
 			if len(x.Lhs) != 1 || len(x.Rhs) != 1 {
 				return true
+			}
+			curStmt = x
+			// t = helper(args): the helper's returned formulas are the target's (parameters replaced by the arguments)
+			liftHelper(x.Rhs[0], strings.ReplaceAll(exprText(info, x.Lhs[0]), " ", ""), x.Lhs[0], x.Pos())
+			if hc, ok := ast.Unparen(x.Rhs[0]).(*ast.CallExpr); false && ok && !isConversion(info, hc) && len(polyInlining) < 3 {
+				if hf := calleeFunc(info, hc); hf != nil && !hf.Exported() && hf.Pkg() == pk.Types {
+					if hd, ok := formulaDecls[pkgShort(pk.Types)+"."+hf.Name()]; ok && hd.fd != fd && hd.fd.Body != nil && hd.fd.Recv == nil {
+						if _, single := polyInline[hf]; !single {
+							saved := polyArgs
+							merged := map[types.Object]ast.Expr{}
+							for k, v := range saved {
+								merged[k] = v
+							}
+							for k, v := range helperSubst(hd, hc) {
+								merged[k] = v
+							}
+							polyArgs = merged
+							ast.Inspect(hd.fd.Body, func(m ast.Node) bool {
+								if _, isLit := m.(*ast.FuncLit); isLit {
+									return false
+								}
+								if r, ok := m.(*ast.ReturnStmt); ok && len(r.Results) == 1 && hasArith(r.Results[0]) {
+									add(strings.ReplaceAll(exprText(info, x.Lhs[0]), " ", ""), token.ASSIGN, x.Lhs[0], r.Results[0], x.Pos())
+								}
+								return true
+							})
+							polyArgs = saved
+						}
+					}
+				}
 			}
 			add(strings.ReplaceAll(exprText(info, x.Lhs[0]), " ", ""), x.Tok, x.Lhs[0], x.Rhs[0], x.Pos())
 		case *ast.IncDecStmt:
@@ -319,9 +654,14 @@ func formulasIn(pk *packages.Package, fd *ast.FuncDecl, fn string, subst map[typ
 					if hasArith(a) {
 						add(fmt.Sprintf("call:%s#%d", fobj.Name(), i), token.ASSIGN, nil, a, x.Pos())
 					}
+					liftHelper(a, fmt.Sprintf("call:%s#%d", fobj.Name(), i), nil, x.Pos())
 				}
 			}
 		case *ast.ReturnStmt:
+			if wholeBool {
+				return true // the function's boolean was read as a whole (guards and final return)
+			}
+			curStmt = x
 			for i, r := range x.Results {
 				if hasArith(r) || hasBoolOp(r) {
 					add(fmt.Sprintf("return#%d", i), token.ASSIGN, nil, r, x.Pos())
@@ -342,7 +682,7 @@ func lhsOrNil(e ast.Expr) ast.Expr {
 
 func addLit(out *[]formulaSite, fn, target, v string, pos token.Pos) {
 	v = "+= " + v
-	*out = append(*out, formulaSite{fn, target, token.ADD_ASSIGN, pos, v, v, v, v, v, ""})
+	*out = append(*out, formulaSite{fn, target, token.ADD_ASSIGN, pos, v, v, v, v, v, "", nil})
 }
 
 var formulaHelpers = map[string][]string{}
@@ -490,6 +830,7 @@ func ruleFormulaSpec(c *Ctx) {
 		named, abs, res, ra, texts []string
 		pos                        token.Pos
 		via                        bool
+		assume                     []string
 	}
 	gather := func(sites []formulaSite, keep func(formulaSite) bool) map[string]*forms {
 		m := map[string]*forms{}
@@ -507,6 +848,7 @@ func ruleFormulaSpec(c *Ctx) {
 			f.res = append(f.res, s.res)
 			f.ra = append(f.ra, s.ra)
 			f.texts = append(f.texts, s.text)
+			f.assume = append(f.assume, s.assume...)
 			if s.via != "" {
 				f.via = true
 			}
@@ -541,7 +883,54 @@ func ruleFormulaSpec(c *Ctx) {
 		}
 		return true
 	}
+	conj := func(form string) (string, []string) {
+		// "= and(a; b)" -> ("=", [a b]); "= x" -> ("=", [x])
+		i := strings.Index(form, " ")
+		if i < 0 {
+			return "", nil
+		}
+		tok, body := form[:i], form[i+1:]
+		if strings.HasPrefix(body, "and(") && strings.HasSuffix(body, ")") && balancedTop(body[4:len(body)-1]) {
+			return tok, splitTop(body[4 : len(body)-1])
+		}
+		return tok, []string{body}
+	}
+	// underAssumptions: one boolean assignment whose conjuncts are all reviewed ones, the reviewed conjuncts it leaves
+	// out being known to hold where it stands (a guard above it already returned otherwise)
+	underAssumptions := func(e formulaSpec, f *forms) bool {
+		if len(e.res) != 1 || len(f.res) != 1 || len(f.assume) == 0 {
+			return false
+		}
+		t1, want := conj(e.res[0])
+		t2, got := conj(f.res[0])
+		if t1 != t2 || len(want) < 2 || len(got) == 0 {
+			return false
+		}
+		ws, as := map[string]bool{}, map[string]bool{}
+		for _, w := range want {
+			ws[w] = true
+		}
+		for _, a := range f.assume {
+			as[a] = true
+		}
+		gs := map[string]bool{}
+		for _, g := range got {
+			if !ws[g] {
+				return false
+			}
+			gs[g] = true
+		}
+		for _, w := range want {
+			if !gs[w] && !as[w] {
+				return false
+			}
+		}
+		return true
+	}
 	match := func(e formulaSpec, f *forms) (string, []string) {
+		if underAssumptions(e, f) {
+			return "res", nil
+		}
 		switch {
 		case same(f.named, e.named, f.via):
 			return "named", nil
@@ -622,6 +1011,79 @@ func ruleFormulaSpec(c *Ctx) {
 			verdicts[i] = verdict{"missing", "", pos0, fmt.Sprintf("no assignment to %s in %s and no other target (in it or in an unexported helper it calls) carries its formula (%s)", e.target, e.fn, e.spec)}
 		}
 	}
+	// a formula split over places: every reviewed assignment is found — under the target, or as the value handed to a
+	// call / returned by an unexported helper (`= t + rest` read as the accumulation `+= rest` on t) — and the target
+	// itself carries nothing that was not reviewed
+	reduceBy := func(form, t string) string {
+		if !strings.HasPrefix(form, "= ") {
+			return ""
+		}
+		terms := strings.Split(form[2:], " + ")
+		var rest []string
+		hit := false
+		for _, tm := range terms {
+			if tm == t && !hit {
+				hit = true
+				continue
+			}
+			rest = append(rest, tm)
+		}
+		if !hit {
+			return ""
+		}
+		if len(rest) == 0 {
+			return "+= 0"
+		}
+		return "+= " + strings.Join(rest, " + ")
+	}
+	for i, e := range formulaTable {
+		if verdicts[i].status == "ok" || strings.ContainsAny(e.target, "#:") {
+			continue
+		}
+		sites := all[e.fn]
+		if len(sites) == 0 {
+			continue
+		}
+		usedSite := map[int]bool{}
+		allFound := true
+		for k := range e.named {
+			found := false
+			for si, sv := range sites {
+				if usedSite[si] {
+					continue
+				}
+				cands := []string{sv.named, sv.res}
+				if sv.target != e.target {
+					cands = append(cands, reduceBy(sv.named, e.target), reduceBy(sv.res, e.target))
+				}
+				for _, cnd := range cands {
+					if cnd != "" && (cnd == e.named[k] || (k < len(e.res) && cnd == e.res[k])) {
+						found = true
+					}
+				}
+				if found {
+					usedSite[si] = true
+					break
+				}
+			}
+			if !found {
+				allFound = false
+				break
+			}
+		}
+		if !allFound {
+			continue
+		}
+		extra := false
+		for si, sv := range sites {
+			if sv.target == e.target && sv.via == "" && !usedSite[si] {
+				extra = true
+			}
+		}
+		if !extra {
+			verdicts[i] = verdict{"ok", "split", verdicts[i].pos, e.spec + " (part of it is computed where the value is handed on: a call argument or an unexported helper)"}
+		}
+	}
 	// a tabled local that was inlined: its formula is then part of the entries that used it; when each of those is
 	// found in its resolved form (which spells the local out), the local's own entry is discharged with them
 	tok := func(s string) map[string]bool {
@@ -664,4 +1126,47 @@ func ruleFormulaSpec(c *Ctx) {
 			c.unm(key, v.pos, "%s", v.msg)
 		}
 	}
+}
+
+// assumptionsAt: the conditions that hold whenever control reaches statement n, read off the structure: n stands after
+// an `if C { …leaves… }` of an enclosing block (not C holds), inside the then-branch of `if C` (C holds) or inside its
+// else-branch (not C). Each is given as the conjuncts of its resolved negation normal form.
+func assumptionsAt(info *types.Info, parents map[ast.Node]ast.Node, n ast.Node, defs map[types.Object]localDef) []string {
+	if n == nil {
+		return nil
+	}
+	var out []string
+	addC := func(cond ast.Expr, neg bool) {
+		f := boolNNF(info, cond, defs, neg, 0)
+		if strings.HasPrefix(f, "and(") && strings.HasSuffix(f, ")") {
+			out = append(out, splitTop(f[4:len(f)-1])...)
+		} else {
+			out = append(out, f)
+		}
+	}
+	var child ast.Node = n
+	for p := parents[n]; p != nil; child, p = p, parents[p] {
+		switch x := p.(type) {
+		case *ast.BlockStmt:
+			for _, st := range x.List {
+				if st == child {
+					break
+				}
+				if is, ok := st.(*ast.IfStmt); ok && is.Else == nil && is.Init == nil && terminates(is.Body) {
+					addC(is.Cond, true)
+				}
+			}
+		case *ast.IfStmt:
+			if x.Init == nil {
+				if child == ast.Node(x.Body) {
+					addC(x.Cond, false)
+				} else if child == ast.Node(x.Else) {
+					addC(x.Cond, true)
+				}
+			}
+		case *ast.FuncLit:
+			return out
+		}
+	}
+	return out
 }
